@@ -3,8 +3,21 @@ import json
 import gen_gin as G
 import gindom
 import refmodel
-from gindom import to_driver, compare  # noqa: F401
-from props.c12 import tally  # noqa: F401
+from gindom import to_driver  # noqa: F401
+from props import c12
+
+
+def compare(case, impl, model):
+  if case.get('_kind') == 'singleton_retry':
+    return None
+  return gindom.compare(case, impl, model)
+
+
+def tally(stats, case, impl):
+  if case.get('_kind') == 'singleton_retry':
+    stats['singleton_retry'] = stats.get('singleton_retry', 0) + 1
+    return
+  c12.tally(stats, case, impl)
 
 ID = 'C20'
 DOMAIN = 'gin/state'
@@ -139,13 +152,65 @@ def gen_case(rng):
   return {'dom': 'gin', 'ops': list(regs) + pre + [clear] + tail, '_ntail': len(tail)}
 
 
+# a singleton whose constructor fails (it raises, or a required binding is missing): nothing is cached, and after
+# clear_config - or straight away - the same scope name is usable like in a fresh process; a finite table on the real code
+RETRY_CASES = [{'dom': 'gin', '_kind': 'singleton_retry', 'fail': fl, 'clear': cl, 'key': k, 'ops': []}
+               for fl in ('raises', 'missing_required', 'base_exception') for cl in (None, False, True) for k in ('db', 'a/db')]
+
+
+def run_retry_case(case):
+  import core
+  gin = core.fresh_gin()
+  g = {'__name__': 'rt', 'gin': gin}
+  exec('def make_db(url=gin.REQUIRED, port=1):\n  return {"url": url, "port": port}\n'  # pylint: disable=exec-used
+       'def consumer(db=None):\n  return db\n', g)
+  gin.configurable(g['make_db'])
+  consumer = gin.configurable(g['consumer'])
+  key = case['key']
+  facts = {}
+
+  class Stop(BaseException):
+    pass
+  try:
+    if case['fail'] == 'missing_required':
+      gin.parse_config(f'rt.consumer.db = @{key}/gin.singleton()\n{key}/gin.singleton.constructor = @rt.make_db\n')
+      try:
+        consumer()
+        facts['first'] = 'returned'
+      except RuntimeError:
+        facts['first'] = 'failed'
+    else:
+      exc = ValueError if case['fail'] == 'raises' else Stop
+
+      def bad():
+        raise exc('constructor fails')
+      try:
+        gin.config.singleton_value(key, bad)
+        facts['first'] = 'returned'
+      except (ValueError, Stop):
+        facts['first'] = 'failed'
+    if case['clear'] is not None:
+      gin.clear_config(clear_constants=case['clear'])
+    gin.parse_config(f'rt.consumer.db = @{key}/gin.singleton()\n{key}/gin.singleton.constructor = @rt.make_db\n'
+                     f'rt.make_db.url = "sqlite://"\n')
+    a, b = consumer(), consumer()
+    facts['second'] = a
+    facts['same_object'] = a is b
+  except BaseException as e:  # pylint: disable=broad-except
+    facts['error'] = f'{type(e).__name__}: {e}'[:300]
+  return {'out': [], 'facts': facts}
+
+
 def gen_cases(rng, tier, boost=1):
+  yield from RETRY_CASES
   n = (700 if tier == 'quick' else 15000) * boost
   for _ in range(n):
     yield gen_case(rng)
 
 
 def run_impl(case):
+  if case.get('_kind') == 'singleton_retry':
+    return run_retry_case(case)
   out = gindom.run_impl(case)
   ops = case['ops']
   ntail = case.get('_ntail')
@@ -172,6 +237,12 @@ def run_impl(case):
 
 
 def oracle(case, impl):
+  if case.get('_kind') == 'singleton_retry':
+    f = impl['facts']
+    if 'error' in f or f.get('first') != 'failed' or f.get('second') != {'url': 'sqlite://', 'port': 1} or not f.get('same_object'):
+      return (f'a singleton whose constructor failed ({case["fail"]}), then clear_config={case["clear"]}, then a working '
+              f'configuration under the same scope name {case["key"]!r}: {f}')
+    return None
   why = refmodel.check_history(case, impl, {'locked', 'config', 'constants', 'registry', 'clear'})
   if why:
     return why
@@ -206,6 +277,8 @@ def oracle(case, impl):
 
 
 def nontrivial(case, impl):
+  if case.get('_kind') == 'singleton_retry':
+    return True
   n = 0
   for op, res in zip(case['ops'], impl['out']):
     if op['op'] == 'clear':
@@ -216,6 +289,8 @@ def nontrivial(case, impl):
 
 
 def shrink(case):
+  if case.get('_kind') == 'singleton_retry':
+    return
   ops = case['ops']
   ntail = case.get('_ntail', 0)
   for k in range(len(ops) - ntail - 2, -1, -1):
